@@ -211,3 +211,116 @@ func TestC12_Vectors(t *testing.T) {
 	}
 	S("C12", "codec-vectors").Eval(len(vecs) + 3)
 }
+
+// C12.constructed: values that reach MarshalBinary through the package's own
+// constructors (Parse, Compose, arithmetic) rather than from raw bits, so that
+// the encoder inside the package (choice of steering form, field placement) is
+// what produces the bytes.
+type c12CtorArgs struct {
+	Neg  bool
+	Coef string
+	Exp  int
+}
+
+var c12ctor = Register("C12", "C12.constructed", func(a c12CtorArgs) *Violation {
+	st := S("C12", "constructed")
+	st.Eval(1)
+	c, ok := new(big.Int).SetString(a.Coef, 10)
+	if !ok || c.Sign() < 0 || c.Cmp(ref.Cmax) > 0 || a.Exp < ref.Emin || a.Exp > ref.Emax {
+		return nil
+	}
+	want := ref.Num{Class: ref.Finite, Neg: a.Neg, Coef: c, Exp: a.Exp}
+	check := func(route string, d d128.Decimal) *Violation {
+		b, err := d.MarshalBinary()
+		if err != nil || len(b) != 16 {
+			return violf("%s: MarshalBinary len %d err %v", route, len(b), err)
+		}
+		n := ref.DecodeBits(binary.BigEndian.Uint64(b[:8]), binary.BigEndian.Uint64(b[8:]))
+		if !ref.SameVal(n, want) {
+			return violf("%s of %s: MarshalBinary gives % x, which an independent BID decoder reads as %s", route, want, b, n)
+		}
+		if n.Coef.Cmp(ref.Cmax) > 0 {
+			return violf("%s of %s: encoded coefficient %s exceeds the format", route, want, n.Coef)
+		}
+		steering := b[0]&0x60 == 0x60
+		if steering != (n.Coef.BitLen() > 113) {
+			return violf("%s of %s: steering form %v for a %d-bit coefficient (% x)", route, want, steering, n.Coef.BitLen(), b)
+		}
+		var back d128.Decimal
+		if err := back.UnmarshalBinary(b); err != nil || back != d {
+			return violf("%s of %s: Unmarshal(Marshal) differs", route, want)
+		}
+		return nil
+	}
+	sign := ""
+	if a.Neg {
+		sign = "-"
+	}
+	p, err := d128.Parse(sign + a.Coef + "e" + itoa64(int64(a.Exp)))
+	if err != nil {
+		return violf("Parse(%s%se%d): %v", sign, a.Coef, a.Exp, err)
+	}
+	if v := check("Parse", p); v != nil {
+		return v
+	}
+	var viaCompose d128.Decimal
+	if err := viaCompose.Compose(0, a.Neg, c.Bytes(), int32(a.Exp)); err != nil {
+		return violf("Compose(%s): %v", want, err)
+	}
+	if v := check("Compose", viaCompose); v != nil {
+		return v
+	}
+	// arithmetic route: (c-1) + 1 at the same exponent is exact
+	if c.Sign() > 0 {
+		one := ref.Encode(a.Neg, big.NewInt(1), a.Exp)
+		rest := ref.Encode(a.Neg, new(big.Int).Sub(c, big.NewInt(1)), a.Exp)
+		sum := rest.Add(one)
+		wantSum := want
+		if v := func() *Violation {
+			b, _ := sum.MarshalBinary()
+			n := ref.DecodeBits(binary.BigEndian.Uint64(b[:8]), binary.BigEndian.Uint64(b[8:]))
+			if !ref.SameVal(n, wantSum) {
+				return violf("Add route of %s: MarshalBinary gives % x, decoded %s", want, b, n)
+			}
+			return nil
+		}(); v != nil {
+			return v
+		}
+	}
+	if c.BitLen() > 64 {
+		if c.BitLen() > 113 {
+			st.Class("steering-form")
+		} else if c.BitLen() == 113 || c.BitLen() == 114 {
+			st.Class("around-bit-113")
+		}
+		st.NT(hashString(a.Coef)^uint64(a.Exp)<<1^uint64(b2i(a.Neg)), func() any {
+			return map[string]any{"coef": a.Coef, "exp": a.Exp, "neg": a.Neg}
+		})
+	}
+	return nil
+})
+
+func TestC12_Constructed(t *testing.T) {
+	runRapid(t, 60000, 3000000, func(t *rapid.T) {
+		var c *big.Int
+		switch rapid.IntRange(0, 3).Draw(t, "kind") {
+		case 0:
+			// around the steering boundary 2^113 (+ the width of one low word) and Cmax
+			base := new(big.Int).Lsh(ref.One, 113)
+			switch rapid.IntRange(0, 3).Draw(t, "near") {
+			case 0:
+				base.Add(base, new(big.Int).SetUint64(rapid.Uint64().Draw(t, "lowWord")))
+			case 1:
+				base.Add(base, bi(int64(rapid.IntRange(-3, 3).Draw(t, "off"))))
+			case 2:
+				base.Add(base, new(big.Int).Lsh(new(big.Int).SetUint64(rapid.Uint64().Draw(t, "w")>>17), 64))
+			default:
+				base.Sub(ref.Cmax, bi(int64(rapid.IntRange(0, 3).Draw(t, "off"))))
+			}
+			c = capCoef(base)
+		default:
+			c = genCoef(t)
+		}
+		c12ctor.Run(t, c12CtorArgs{Neg: genSign(t), Coef: c.String(), Exp: genExp(t)})
+	})
+}
